@@ -84,7 +84,7 @@ select list of the shape the parser builds and a FROM clause over user tables: `
 read returns rows or an error value, and the evaluation returns rows or an error value. -/
 theorem select_on_stored_never_panics {db : Engine.DB} {sdb : Spec.SDB} {pt sch : Levels}
     {tbls : List (Bytes × Levels)} (h : AbsV db.store pt sch tbls sdb) (q : Select)
-    (hq : (∃ a, q.list = [⟨.star, a⟩]) ∨ isStar q.list = false) (hn : UserTables q) :
+    (hq : Exec.NoPanicP.ParsedShape q) (hn : UserTables q) :
     (∀ n ∈ selectNames q, FetchTotal db n) ∧ (∀ s, evaluateSelect (fetchOf db) q ≠ .panic s) ∧
       ∀ rows hdr, evaluateSelect (fetchOf db) q = .ok (rows, hdr) →
         ∃ ks : List Kind, ∀ r ∈ rows, rowHas ks r = true := by
@@ -159,7 +159,7 @@ theorem fetchOf_kinded {db : Engine.DB} {sdb : Spec.SDB} {pt sch : Levels} {tbls
 check `catalogOK` -/
 theorem select_any_table_never_panics {db : Engine.DB} {sdb : Spec.SDB} {pt sch : Levels}
     {tbls : List (Bytes × Levels)} (h : AbsV db.store pt sch tbls sdb) (hc : catalogOK db = true) (q : Select)
-    (hq : (∃ a, q.list = [⟨.star, a⟩]) ∨ isStar q.list = false) :
+    (hq : Exec.NoPanicP.ParsedShape q) :
     (∀ n ∈ selectNames q, FetchTotal db n) ∧ ∀ s, evaluateSelect (fetchOf db) q ≠ .panic s := by
   refine ⟨fun n _ => ?_, evaluateSelect_no_panic (fetchOf_kinded h hc) q hq⟩
   by_cases hsys : n = sysPages ∨ n = sysSchema
@@ -168,16 +168,32 @@ theorem select_any_table_never_panics {db : Engine.DB} {sdb : Spec.SDB} {pt sch 
 
 /-! ### the shape hypothesis holds of parsed statements -/
 
+theorem wfLimit_boundsOK {ok : Lit → Bool} {l : LimitOffset} (h : wfLimit ok l = true) :
+    Spec.boundsOK l = true := by
+  unfold wfLimit at h
+  unfold Spec.boundsOK
+  cases ho : l.offsetActive <;> cases hl : l.limitActive <;>
+    simp only [ho, hl, Bool.false_eq_true, if_false, if_true, Bool.and_eq_true, decide_eq_true_eq] at h <;>
+    simp only [Bool.not_false, Bool.not_true, Bool.true_or, Bool.false_or, Bool.and_self, Bool.and_true,
+      Bool.true_and, decide_eq_true_eq, Bool.and_eq_true]
+  · exact h.1.1
+  · exact h.2.1
+  · exact ⟨h.2.1, h.1.1⟩
+
 theorem wfSelect_shape {ok : Lit → Bool} {q : Select} (h : wfSelect ok q = true) :
-    (∃ a, q.list = [⟨.star, a⟩]) ∨ isStar q.list = false := by
+    Exec.NoPanicP.ParsedShape q := by
   unfold wfSelect at h
   simp only [Bool.and_eq_true] at h
+  have hb := wfLimit_boundsOK h.1.2
   have hl := h.1.1.1
   unfold wfSelList at hl
   simp only [Bool.or_eq_true, decide_eq_true_eq, Bool.and_eq_true] at hl
-  rcases hl with hl | ⟨_, hl⟩
-  · exact .inl ⟨[], hl⟩
-  · right
+  rcases hl with hl | ⟨hne, hl⟩
+  · exact Exec.NoPanicP.ParsedShape.of_star hb hl
+  · refine Exec.NoPanicP.ParsedShape.of_nostar ?_ hb ?_
+    · intro e
+      rw [e] at hne
+      cases hne
     cases hql : q.list with
     | nil => rfl
     | cons d rest =>
@@ -192,7 +208,7 @@ theorem wfSelect_shape {ok : Lit → Bool} {q : Select} (h : wfSelect ok q = tru
 
 /-- **every SELECT `Parser.Parse` returns has the shape `C18_no_panic_partial` asks for** -/
 theorem parsed_select_shape {ts : List Scan.Token} {q : Select} (h : parseTokens ts = .ok (.select q)) :
-    (∃ a, q.list = [⟨.star, a⟩]) ∨ isStar q.list = false :=
+    Exec.NoPanicP.ParsedShape q :=
   wfSelect_shape (parseTokens_wf h)
 
 end Mkdb.Store
